@@ -14,6 +14,9 @@ import time
 
 ROOT = os.path.dirname(os.path.dirname(os.path.dirname(os.path.abspath(__file__))))
 FINDINGS = os.path.join(ROOT, 'known_findings.txt')
+# VF_OUT redirects evidence and replay files (used when trying seeded changes, so that the committed
+# evidence of the unchanged tree is not overwritten)
+OUT = os.environ.get('VF_OUT') or ROOT
 
 
 def jsonable(obj):
@@ -163,7 +166,7 @@ def finish(pid, tier, seed, level, report, rule, assumptions, t0, technique=''):
             known.setdefault(match, []).append((key, count))
         else:
             new.append((key, what, case, count))
-    rdir = os.path.join(ROOT, 'replays', pid)
+    rdir = os.path.join(OUT, 'replays', pid)
     lines = []
     for (k, w), keys in known.items():
         lines.append(f'KNOWN-FINDING: property={pid} {w} [{len(keys)} key(s), e.g. {keys[0][0]}]')
@@ -205,8 +208,8 @@ def finish(pid, tier, seed, level, report, rule, assumptions, t0, technique=''):
         'wall_s': round(time.time() - t0, 2),
         'violations': len(new),
     }
-    os.makedirs(os.path.join(ROOT, 'evidence'), exist_ok=True)
-    with open(os.path.join(ROOT, 'evidence', pid + '.json'), 'w') as fil:
+    os.makedirs(os.path.join(OUT, 'evidence'), exist_ok=True)
+    with open(os.path.join(OUT, 'evidence', pid + '.json'), 'w') as fil:
         json.dump(evidence, fil, indent=1, default=repr)
         fil.write('\n')
     for line in lines:
